@@ -15,6 +15,27 @@ CLASSIFIERS = {"OperandsParser.operand_is_int": "classifies an operand string (n
                "PatternNodeOperand._is_hex_operand": "classifies an operand name"}
 
 
+def is_conversion_probe(try_node: ast.Try, handler: ast.ExceptHandler) -> bool:
+    """try: int(x[, base]) / float(x) [; return <simple>]  except (ValueError|TypeError): return <constant>
+    -- a string classifier: the handler answers 'no', nothing else happened in the try body"""
+    def simple(e) -> bool:
+        return e is None or isinstance(e, (ast.Constant, ast.Name))
+    body = list(try_node.body)
+    if not body:
+        return False
+    first = body[0]
+    call = first.value if isinstance(first, (ast.Expr, ast.Assign)) else None
+    if not (isinstance(call, ast.Call) and isinstance(call.func, ast.Name) and call.func.id in ("int", "float")):
+        return False
+    if not all(isinstance(st, ast.Return) and simple(st.value) for st in body[1:]):
+        return False
+    t = handler.type
+    names = [t] if isinstance(t, ast.Name) else list(t.elts) if isinstance(t, ast.Tuple) else []
+    if not names or not all(isinstance(x, ast.Name) and x.id in ("ValueError", "TypeError") for x in names):
+        return False
+    return len(handler.body) == 1 and isinstance(handler.body[0], ast.Return) and simple(handler.body[0].value)
+
+
 def always_raises(body) -> bool:
     if not body:
         return False
@@ -184,10 +205,11 @@ def _lift(I, x):
 
 
 def _syntactic(ctx, m, f) -> None:
+    probes = {id(h) for t in ast.walk(f.node) if isinstance(t, ast.Try) for h in t.handlers if is_conversion_probe(t, h)}
     for n in ast.walk(f.node):
         if isinstance(n, ast.ExceptHandler):
-            if f.qualname in CLASSIFIERS:
-                ctx.ok("C17.R1.no-swallowing-handler", f.qualname, "reviewed: " + CLASSIFIERS[f.qualname])
+            if f.qualname in CLASSIFIERS or id(n) in probes:
+                ctx.ok("C17.R1.no-swallowing-handler", f.qualname, "reviewed: " + CLASSIFIERS.get(f.qualname, "int()/float() conversion probe"))
                 continue
             ctx.check(always_raises(n.body), "C17.R1.no-swallowing-handler", f.qualname,
                       f"except {ast.unparse(n.type) if n.type else ''}: does not re-raise",
